@@ -461,7 +461,7 @@ def gen_tap3(rng: Rng, malformed: bool = False) -> dict:
             creds = [[h, 0] for h, _ in creds]                                # no ip_address for remote hosts
     pr = lambda: rng.choice(DYADIC) if rng.chance(1, 2) else (1, 1)  # noqa: E731
     case = {"agent": "tap3", "start": start, "f": f, "v": v, "rkc": rng.chance(1, 2), "rs": rng.chance(2, 3),
-            "pPl": pr(), "pAc": pr(), "pMa": pr(), "nHosts": n_hosts, "accts": accts, "acls": acls, "creds": creds,
+            "pPl": pr(), "pAc": pr(), "pMa": pr(), "pEx": rng.choice(DYADIC), "nHosts": n_hosts, "accts": accts, "acls": acls, "creds": creds,
             "d0": rng.range(-v, v) if v >= 0 else 0, "steps": []}
     fail_rate = rng.choice([0, 0, 5, 15, 40])
     for _ in range(rng.range(10, 90)):
@@ -499,7 +499,7 @@ def tap3_cfg(case: dict) -> dict:
             "MANIPULATION": {"probability": fl(case["pMa"]),
                              "account_changes": [{"host": _h(h), "username": "admin", "new_password": f"new{j}"}
                                                  for j, h in enumerate(case["accts"])]},
-            "EXPLOIT": {"probability": 1, "malicious_acls": [acl(r, j + 1) for j, r in enumerate(case["acls"])]}}}}
+            "EXPLOIT": {"probability": fl(case.get("pEx", (1, 1))), "malicious_acls": [acl(r, j + 1) for j, r in enumerate(case["acls"])]}}}}
 
 
 def _canon_act3(agent, act: str, par: dict, case: dict) -> str:
